@@ -82,7 +82,7 @@ TARGETS = {"codebasin.platform:Platform.find_include_file": Resolver()}
 from native.systarget import SysTarget  # noqa: E402
 
 TARGETS["codebasin.preprocessor:IncludeNode.evaluate_for_platform"] = SysTarget(
-    "includes", ("computed", "forced"), quick_n=400, thorough_n=6000)
+    "includes", ("computed", "forced", "multi"), quick_n=400, thorough_n=6000)
 
 
 # ---- recorded findings reported by defect hunting (fixed inputs; oracle gcc -E quoted in the descriptions) -------------
